@@ -13,7 +13,7 @@ use nom::{
     branch::alt,
     bytes::complete::{tag, take_until},
     character::complete::{char, multispace1},
-    combinator::{into, map, opt, recognize},
+    combinator::{into, map, opt, recognize, verify},
     multi::{many0, many1},
     sequence::{delimited, pair, preceded, terminated},
     Parser,
@@ -262,6 +262,16 @@ fn top_level_value_declaration(input: Input<'_>) -> ParserResult<'_, ToplevelVal
     .parse(input)
 }
 
+/// Parses the class reference that governs an information object or object set.
+/// Built-in type keywords are reserved words: `v REAL ::= { mantissa 1, base 2, exponent 0 }`
+/// and `v RELATIVE-OID ::= { 1 2 }` are value assignments, not information objects.
+fn governing_class_reference(input: Input<'_>) -> ParserResult<'_, &str> {
+    verify(uppercase_identifier, |id: &str| {
+        ![REAL, RELATIVE_OID, INTEGER, BOOLEAN, NULL, EXTERNAL].contains(&id)
+    })
+    .parse(input)
+}
+
 fn top_level_information_object_declaration(
     input: Input<'_>,
 ) -> ParserResult<'_, ToplevelInformationDefinition> {
@@ -269,7 +279,7 @@ fn top_level_information_object_declaration(
         skip_ws(many0(comment)),
         skip_ws(context_boundary(identifier)),
         skip_ws_and_comments(opt(parameterization)),
-        skip_ws_and_comments(uppercase_identifier),
+        skip_ws_and_comments(governing_class_reference),
         preceded(assignment, information_object),
     ))
     .parse(input)
@@ -282,7 +292,7 @@ fn top_level_object_set_declaration(
         skip_ws(many0(comment)),
         skip_ws(context_boundary(identifier)),
         skip_ws_and_comments(opt(parameterization)),
-        skip_ws_and_comments(uppercase_identifier),
+        skip_ws_and_comments(governing_class_reference),
         preceded(assignment, object_set),
     ))
     .parse(input)
